@@ -211,11 +211,15 @@ class GenX(F.Gen):
         elif ck == 'intsub':
             roles = {'n': pick(H, D), 'm': pick(H, D), 'flag': H, 'ia': pick(H, D), 'ra': pick(H, H, D), 'ib': H,
                      'k': pick(D, D, H), 'x': pick(H, D), 't1': pick(L, H), 't2': pick(L, H), 'y': pick(L, H)}
+            if 'nohostarrays' in self.f:
+                roles.update({'ia': D, 'ra': pick(D, L), 'ib': L})
         elif ck in ('modfun', 'elemental'):
             roles = {'n': D, 'm': D, 'flag': L, 'ia': L if ck == 'elemental' else pick(D, L), 'ra': L, 'ib': L,
                      'k': 'RES', 'x': L, 't1': L, 't2': L, 'y': L}
         elif ck == 'intfun':
             roles = {'n': pick(D, D, H), 'm': H, 'flag': H, 'ia': H, 'ra': H, 'ib': H, 'k': 'RES', 'x': L, 't1': L, 't2': L, 'y': L}
+            if 'nohostarrays' in self.f:
+                roles.update({'ia': L, 'ra': L, 'ib': L})
         else:
             raise MachineryError(f'callee kind {ck}')
         for v in LOOPVARS:
@@ -574,10 +578,17 @@ def region_ok(ss):
 
 
 def blocks_of(ss, inside_assoc=False, acc=None):
-    """All statement lists (with flag: lies inside an ASSOCIATE) of a body."""
+    """All statement lists (with flag: lies inside an ASSOCIATE) of a body that are not inside an outline region."""
     acc = [] if acc is None else acc
     acc.append((ss, inside_assoc))
+    inreg = False
     for s in ss:
+        if s['s'] == 'raw' and s['text'].startswith('!$loki outline'):
+            inreg = True
+        elif s['s'] == 'raw' and s['text'].startswith('!$loki end outline'):
+            inreg = False
+        if inreg:
+            continue
         for key in ('body', 'els', 'default'):
             if isinstance(s.get(key), list):
                 blocks_of(s[key], inside_assoc or s['s'] == 'assoc', acc)
@@ -588,7 +599,20 @@ def blocks_of(ss, inside_assoc=False, acc=None):
     return acc
 
 
-def insert_regions(rng, kernel, count, *, overrides=True, names=True, allow_assoc=False, allow_print=False, skip=6):
+def free_indices(blk):
+    """Indices of a statement list that are not part of an existing outline region."""
+    out, inreg = [], False
+    for i, s in enumerate(blk):
+        if s['s'] == 'raw' and s['text'].startswith('!$loki outline'):
+            inreg = True
+        elif s['s'] == 'raw' and s['text'].startswith('!$loki end outline'):
+            inreg = False
+        elif not inreg:
+            out.append(i)
+    return out
+
+
+def insert_regions(rng, kernel, count, *, overrides=True, names=True, allow_assoc=False, allow_print=False, ovarray=False, skip=6):
     """Wrap up to `count` disjoint statement ranges of the kernel body into `!$loki outline` regions."""
     intent_in = {d['name'] for d in kernel['decls'] if d['intent'] == 'in'}
     params = {d['name'] for d in kernel['decls'] if d.get('param')}
@@ -604,6 +628,9 @@ def insert_regions(rng, kernel, count, *, overrides=True, names=True, allow_asso
             continue
         a = rng.randint(lo0, hi0 - 1)
         b = rng.randint(a + 1, min(hi0, a + 3))
+        free = set(free_indices(blk))
+        if any(i not in free for i in range(a, b)):
+            continue
         seg = blk[a:b]
         if not region_ok(seg):
             continue
@@ -614,9 +641,11 @@ def insert_regions(rng, kernel, count, *, overrides=True, names=True, allow_asso
             pragma += f' name(reg{placed + 1})'
         if overrides and rng.random() < 0.5:
             used = mentions(seg) - params
+            if not ovarray:      # arrays in in()/inout()/out() are a construct of their own
+                used -= {d['name'] for d in kernel['decls'] if d['dims']}
             wr = written(seg)
             ro = sorted(v for v in used if v not in wr and not v.startswith('z'))
-            rw = sorted(v for v in used if v not in intent_in and not v.startswith('z'))
+            rw = sorted(v for v in used if v not in intent_in and not v.startswith('z') and (v not in LOOPVARS or v in wr))
             r = rng.random()
             if r < 0.4 and ro:
                 pragma += f' in({rng.choice(ro)})'
@@ -1172,7 +1201,18 @@ def expr_candidates(prog, limit=24):
 
 def sig_of(kind, msg):
     """lib_fm.failure_signature with quoted identifiers abstracted (stable across generated names)."""
+    if kind == 'compile-error':
+        # the build log is cut to its tail: prefer the most specific diagnostic over the follow-up errors
+        for pat in (r'Duplicate symbol', r'PARAMETER attribute conflicts', r'has already appeared in the current argument list',
+                    r'has no IMPLICIT type', r'undefined reference'):
+            m = re.search(rf'^.*{pat}.*$', msg, re.M)
+            if m:
+                msg = m.group(0).replace('Error: ', 'Error: ', 1)
+                if 'Error' not in msg:
+                    msg = 'Error: ' + msg
+                break
     sg = re.sub(r"[‘'`][A-Za-z_0-9]+[’']", 'ID', F.failure_signature(kind, msg))
+    sg = re.sub(r'; did you mean ID\?', '', sg)
     return re.sub(r'(RecursionError).*', r'\1', sg)
 
 
